@@ -76,6 +76,28 @@ structure St where
 
 def init (acts : List SendAct) (pkts : List SrvPkt) : St := { sender := some acts, recv := .running pkts }
 
+/-! ### primitives the translated client functions (Generated/Trans.lean) are written over -/
+
+/-- `c.writer.Flush()`: the vector goes to the connection and the writer is reset whatever happens; `fail = some mid`:
+the connection fails the write, `mid` = it stopped inside a packet.  A closed connection fails every write. -/
+def writerFlush (s : St) (fail : Option Bool) : St × Bool :=
+  if s.closed then ({ s with pending := 0 }, true)
+  else
+    match fail with
+    | none => ({ s with pending := 0 }, false)
+    | some mid => ({ s with pending := 0, wroteMid := s.wroteMid || mid }, true)
+
+/-- `c.writer.Reset()` -/
+def writerReset (s : St) : St := { s with pending := 0 }
+
+/-- `c.conn.Close()` of the underlying connection; `connErr`: it reports an error -/
+def connClose (s : St) (connErr : Bool) : St × Bool := (s, connErr)
+
+/-- `c.flushBuf(ctx, &b)` with a live context: `b` is written to the connection unless it is closed; the Cancel packet
+is the single byte 3 -/
+def flushBufP (s : St) (b : List Nat) : St × Bool :=
+  if s.closed then (s, true) else ({ s with cancelSent := b == [3] }, false)
+
 /-- a goroutine returns an error: the group cancels the shared context -/
 def failSender (s : St) : St := { s with sender := none, err := true, ctxDead := true }
 
